@@ -112,6 +112,7 @@ struct Family {
 };
 
 // matrix object of either class behind the ProjMatrixByBin interface
+// (for a "FromFile" family this gives the ray-tracing matrix the file is written from / the reference)
 static shared_ptr<ProjMatrixByBin> new_matrix(const std::string& impl, const Sw& sw, bool cache_on, bool basic_only) {
   if (impl == "Interpolation") {
     shared_ptr<ProjMatrixByBinUsingInterpolation> m(new ProjMatrixByBinUsingInterpolation);
@@ -188,7 +189,7 @@ struct Recorder {
     o.sw = sw;
     if (auto* ip = dynamic_cast<ProjMatrixByBinUsingInterpolation*>(o.m.get())) {
       // parsing sets every parameter: the switches and (again) the current cache mode
-      const bool failed = parse_interpolation(*ip, sw, o.cache_on, o.basic_only);
+      const bool failed = !parse_interpolation(*ip, sw, o.cache_on, o.basic_only);
       tr.emit(vh::Json("Parse").arr("sw", sw_list(sw)).boolean("cacheOn", o.cache_on).boolean("basicOnly", o.basic_only).boolean("failed", failed));
     } else {
       apply_switches(dynamic_cast<ProjMatrixByBinUsingRayTracing&>(*o.m), sw);
@@ -233,6 +234,43 @@ struct Recorder {
   }
   void enable_cache(Obj& o, bool v) { o.m->enable_cache(v); o.cache_on = v; tr.emit(vh::Json("EnableCache").boolean("v", v)); }
   void store_basic(Obj& o, bool v) { o.m->store_only_basic_bins_in_cache(v); o.basic_only = v; tr.emit(vh::Json("StoreBasic").boolean("v", v)); }
+
+  // ProjMatrixByBinFromFile: a ray-tracing matrix with the requested switches, set up for geometry src, is written
+  // with the library's writer; a new object parses the header; then a history of calls on it
+  void fromfile_history(const Family& f, int src, const Sw& req, bool cache_on, bool basic_only, int len, const std::string& prefix) {
+    shared_ptr<ProjMatrixByBin> source = new_matrix("RayTracing", req, true, true);
+    options(*source, f.geoms[src - 1].o);
+    source->set_up(pdis[src - 1], ims[src - 1]);
+    const DataSymmetriesForBins_PET_CartesianGrid* sym = dynamic_cast<const DataSymmetriesForBins_PET_CartesianGrid*>(source->get_symmetries_ptr());
+    const bool written = ProjMatrixByBinFromFile::write_to_file(prefix, *source, pdis[src - 1], *ims[src - 1]) == Succeeded::yes;
+    source.reset();
+    Obj o; o.impl = "FromFile"; o.cache_on = cache_on; o.basic_only = basic_only;
+    shared_ptr<ProjMatrixByBinFromFile> ff(new ProjMatrixByBinFromFile);
+    std::string hdr = prefix; hdr += ".hpm";
+    const bool parsed = !vh::threw([&] { if (!ff->parse(hdr.c_str())) throw std::runtime_error("parse"); });
+    ff->enable_cache(cache_on);
+    ff->store_only_basic_bins_in_cache(basic_only);
+    o.m = ff;
+    tr.emit(vh::Json("New").str("impl", "FromFile").arr("req", sw_list(req))
+                .arr("sw", std::vector<int>{ sym->using_symmetry_90degrees_min_phi(), sym->using_symmetry_180degrees_min_phi(),
+                                             sym->using_symmetry_swap_segment(), sym->using_symmetry_swap_s(), sym->using_symmetry_shift_z() })
+                .boolean("cacheOn", cache_on).boolean("basicOnly", basic_only).num("src", src).boolean("written", written).boolean("parsed", parsed));
+    if (!set_up(o, f, src)) return;
+    std::vector<Bin> recent;
+    const std::vector<Bin>& bl = bins[src - 1];
+    for (int i = 0; i < len; ++i) {
+      const int r = rng.range(0, 99);
+      if (r < 64) { Bin b = bl[rng.next() % bl.size()]; get(o, b); recent.push_back(b); }
+      else if (r < 82 && !recent.empty()) get(o, recent[recent.size() - 1 - rng.next() % std::min<size_t>(recent.size(), 6)]);
+      else if (r < 85) clear(o);                      // the cache is the storage of this class: rows are gone until the next set_up
+      else if (r < 88) enable_cache(o, !o.cache_on);
+      else if (r < 92) store_basic(o, !o.basic_only);
+      else if (r < 97) set_up(o, f, src);             // reads the file again
+      else set_up(o, f, rng.range(1, (int)f.geoms.size()));   // another image geometry must be refused
+    }
+    for (const char* ext : { ".hpm", ".pm", "_template_density.hv", "_template_density.v", "_template_density.ahv", "_template_proj_data.hs", "_template_proj_data.s" })
+      std::remove((prefix + ext).c_str());
+  }
 
   int pick_usable(const Family& f) {
     for (;;) { int g = rng.range(1, (int)f.geoms.size()); if (usable[g - 1]) return g; }
@@ -327,6 +365,11 @@ static std::vector<Family> families(int tier) {
     fs.push_back({ "interp", IP, { { d, G(9, 9, 3, 3.7F, 3.7F, 2, 0), O(1) }, { d, G(7, 7, 3, 3.7F, 3.7F, 2, 0), O(1) },
                                    { D(16, 3, 3, 1, 1, 0, 0, 5), G(9, 9, 5, 3.3F, 3.3F, 2, 0), O(1) } }, 10, 2 });
   }
+  {
+    // ProjMatrixByBinFromFile: written by the library's writer from a ray-tracing matrix, read back (non-TOF only)
+    DataCfg d = D(12, 3, 1, 2, 1, 0, 0, 6);
+    fs.push_back({ "fromfile", "FromFile", { { d, G(11, 11, 5, 3.6F, 3.6F, 2, 0), O(1) }, { d, G(10, 10, 5, 3.6F, 3.6F, 2, 0), O(2) } }, 6, 0 });
+  }
   if (tier > 0) {
     fs.push_back({ "n32r4", RT, { { D(32, 4, 1, 3, 1, 0, 0, 9), G(21, 21, 7, 2.1F, 2.1F, 2, 0), O(1) }, { D(32, 4, 1, 3, 1, 0, 0, 9), G(20, 20, 7, 2.1F, 2.1F, 2, 0), O(1) },
                                   { D(32, 4, 1, 3, 1, 0, 0, 9), G(21, 21, 14, 2.1F, 2.1F, 4, 0), O(2) } }, 32, 2 });
@@ -339,11 +382,14 @@ static std::vector<Family> families(int tier) {
                                    { D(12, 2, 1, 1, 3, 0, 0, 5), G(9, 9, 2, 3.7F, 3.7F, 1, 0), O(2) } }, 32, 2 });
     fs.push_back({ "span4", RT, { { D(16, 5, 4, 4, 1, 0, 0, 5), G(11, 11, 9, 3.3F, 3.3F, 2, 0), O(1, false, false) }, { D(16, 5, 4, 4, 2, 0, 0, 5), G(12, 12, 18, 3.3F, 3.3F, 4, 0), O(1) },
                                   { D(16, 3, 1, 2, 1, 0, 0, 5), G(11, 11, 7, 3.3F, 3.3F, 3, 1), O(1) } }, 32, 2 });
+    // interpolating matrix: even and non-square image sizes, anisotropic voxels, TOF
+    fs.push_back({ "interp2", IP, { { D(16, 3, 1, 2, 1, 0, 0, 5), G(8, 8, 5, 3.3F, 3.3F, 2, 0), O(1) }, { D(16, 3, 1, 2, 1, 0, 0, 5), G(9, 7, 5, 3.3F, 3.3F, 2, 0), O(1) },
+                                    { D(8, 2, 1, 1, 1, 1, 3, 3), G(7, 7, 3, 4.1F, 4.1F, 2, 0), O(1) } }, 32, 2 });
   }
   return fs;
 }
 
-static void run_rows(vh::Trace& tr, int tier, int only, vh::Rng& rng) {
+static void run_rows(vh::Trace& tr, int tier, int only, vh::Rng& rng, const std::string& scratch) {
   std::vector<Family> fs = families(tier);
   long id = 0;
   for (size_t fi = 0; fi < fs.size(); ++fi) {
@@ -354,6 +400,18 @@ static void run_rows(vh::Trace& tr, int tier, int only, vh::Rng& rng) {
     const int per_block = 49;          // histories per Config block (the reference rows are repeated per block)
     int nh = 0;
     auto maybe_open = [&] { if (nh % per_block == 0) rec.open(f, ++id); ++nh; };
+    if (f.impl == "FromFile") {
+      const int nmask = tier > 0 ? 32 : f.quick_masks;
+      for (int k = 0; k < nmask; ++k) {
+        const int mask = nmask == 32 ? k : (k == 0 ? 31 : frng.range(0, 31));
+        for (int mode = 0; mode < 3; ++mode) {
+          maybe_open();
+          rec.fromfile_history(f, 1 + (k + mode) % 2, sw_from_bits(mask), mode != 0, mode == 1, tier > 0 ? 90 : 60,
+                               scratch + ".pm" + std::to_string(fi) + "_" + std::to_string(k) + "_" + std::to_string(mode));
+        }
+      }
+      continue;
+    }
     // every bin of the first two geometries under the default setting of the class and with everything cached
     maybe_open(); rec.full_pass(f, sw_from_bits(31), true, true, 1);
     if (f.passes > 1) { maybe_open(); rec.full_pass(f, sw_from_bits(31), true, false, f.geoms.size() > 1 ? 2 : 1); }
@@ -380,7 +438,7 @@ int main(int argc, char** argv) {
   const int tier = atoi(argv[3]);
   vh::Rng rng(vh::seed_from_env());
   if (mode == "sym") run_sym(tr, tier);
-  else if (mode == "rows") run_rows(tr, tier, argc > 4 ? atoi(argv[4]) : -1, rng);
+  else if (mode == "rows") run_rows(tr, tier, argc > 4 ? atoi(argv[4]) : -1, rng, argv[2]);
   else if (mode == "count") tr.emit(vh::Json("Count").num("families", (long)families(tier).size()));
   else return 2;
   return 0;
